@@ -123,3 +123,17 @@ PROPS["C10"] = {
     "outside": ["error-detection distance of the code on strings longer than the bound (1-/2-character substitutions up to ~500 characters: not decided)", "text round trip of descriptors, miniscripts, policies and keys (display iterators + parsers on heap trees: not reachable, DESIGN §5 C10)"],
     "assumptions": [],
 }
+
+PROPS["C13"] = {
+    "level": "translation_validation",
+    "trusted_base": _VM_TB + ["/verif/harness/src/gen/c13.rs: witness mutation set, abstract element -> bytes mapping, signature oracle handed to Interpreter::iter_custom (a signature verifies iff it is the designated valid signature of that key)",
+                              "/verif/harness/src/c13.rs: the predicates iabs / irel (proved equal to the real Stack::evaluate_after / evaluate_older for all u32 pairs by c13_after_rule / c13_older_rule)"],
+    "functions": ["symbolically, all u32 pairs: interpreter::stack::Stack::evaluate_after, evaluate_older (hook H6), Sequence::enables_absolute_lock_time",
+                  "natively per (shape, candidate witness, lock class): Interpreter::from_txdata (wsh / sh / bare / tr script path), Interpreter::iter_custom -> Iter::iter_next on the whole AST, inner::from_txdata script-hash and control-block checks"],
+    "bounds": {"quick": "shapes as for C01 with a descriptor wrapper (B-typed, <= 4 nodes; ~1100 tables); per shape every library satisfaction (both modes) plus hash-selected single and double mutations (drop, duplicate, swap, replace by empty / 1 / junk / 32 zero bytes / any key's valid signature / an invalid signature, extra element on top or at the bottom), <= 40 candidates; every class of (nLockTime, nSequence) under the interpreter's own lock predicates x final / non-final nSequence; lock values full 32 bit (symbolic)",
+               "thorough": "as quick with <= 160 candidates per shape and seed-selected shapes up to 6 nodes"},
+    "outside": ["witnesses that are not in the enumerated mutation set (the witness dimension is enumerated natively, not symbolic)", "real signature verification and sighash selection (Interpreter::verify_sig)", "pkh / wpkh / pk and taproot key-path spends, sh-wsh nesting", "inferred_descriptor",
+                "the claim that the interpreter consults nLockTime / nSequence only through evaluate_after / evaluate_older / enables_absolute_lock_time (read off Iter::iter_next; it is what makes one representative per lock class sufficient)"],
+    "assumptions": ["the interpreter ran NATIVELY from the current tree on one representative (nLockTime, nSequence) of every lock class; the solver decided, for ALL lock values of the class, that the reference machine accepts what the interpreter accepted, that the executed path checked exactly the reported constraints, and that these satisfy the lifted policy (translation validation)",
+                    "when a solver model is replayed natively the REAL interpreter is run again at exactly the model's lock values"] + _W_ASSUME[1:],
+}
